@@ -315,7 +315,7 @@ def run(R):
         R.violation("the macros' quote! templates no longer match the modelled attribute layout: " + "; ".join(bad)[:600],
                     {"srcshape": bad}, no_failing_input=True)
         extra_ok = False
-    if R.tier == "thorough" or os.environ.get("PXV_C19_RUSTDOC") == "1":
+    if os.environ.get("PXV_C19_RUSTDOC", "1") != "0":
         extra_ok = attrs.rustdoc_stage(R)
     pxvlib.differential(
         R, modules=["Pxv.Thm.C19"], model="bp", pkg="c19", gen=gen, oracle=oracle, nontrivial=nontrivial, mutate=mutate,
